@@ -81,8 +81,13 @@ def comprehension_family():
                 ('call', 'sum', [ge, 'None']), ('call', 'sum', [lc, 'nothing']),
                 ('if', ('call', 'any', [ge]), 'None', ('call', 'len', [lc])),
                 ('cmp', 'None', [('in', lc)])]
-    # scoping: nested loops, shadowing, leak after early exit, walrus
-    out += [
+    return out
+
+
+def scoping_family():
+    """nested loops, shadowing, leak after early exit / error, walrus around comprehensions (always run, on every
+    environment that has rows)"""
+    return [
         ('comp', '[', ('bin', '+', 'r.amount', 'p.amount'), [('r', 'orders', []), ('p', 'paypal', [])]),
         ('comp', '[', 'r.amount', [('r', 'orders', []), ('r', 'paypal', [])]),
         ('comp', '[', ('comp', '[', 'r.amount', [('r', 'paypal', [])]), [('r', 'orders', [])]),
@@ -95,6 +100,9 @@ def comprehension_family():
         ('bool', 'or', [('cmp', ('call', 'max', [('comp', '(', 'r.amount', [('r', 'orders', [])])]), [('<', '-100')]), 'r.item']),
         ('bool', 'or', [('call', 'any', [('comp', '(', 'False', [('r', 'orders', []), ('p', 'orders', [])])]), 'p', 'r']),
         ('bool', 'and', [('walrus', 'r', '7'), ('call', 'len', [('comp', '[', 'r', [('r', 'orders', [])])]), 'r']),
+        # after a list comprehension the names it bound with := stay, its loop variable does not
+        ('bool', 'or', [('cmp', ('call', 'len', [('comp', '[', ('walrus', 'last', 'r.amount'), [('r', 'orders', [])])]), [('<', '0')]),
+                        ('call', 'exists', ['r']), ('cmp', 'last', [('==', 'last')])]),
         ('bool', 'and', [('walrus', 'm', ('comp', '[', 'r', [('r', 'orders', [('cmp', 'r.amount', [('==', 'txn.amount')])])])),
                          ('cmp', ('call', 'len', ['m']), [('>', '0')])]),
         ('bin', '+', ('walrus', 'amount', '5'), 'amount'),
@@ -109,8 +117,35 @@ def comprehension_family():
         ('cmp', 'txn.amount', [('in', ('comp', '(', 'r.amount', [('r', 'orders', [])]))]),
         ('comp', '[', 'c', [('c', ('comp', '(', 'r.item', [('r', 'orders', [])]), [])]),
     ]
-    return out
 
+
+def walrus_in_comp_family():
+    """:= executed INSIDE a comprehension (element or if clause) binds in the enclosing scope: the name is read after
+    the comprehension ends; fresh names and names bound before.  Valid Python with the same meaning."""
+    def after(comp_expr, name):        # value of `name` after evaluating comp_expr
+        return ('bin', '+', ('bin', '*', ('call', 'len', [comp_expr]), '0'), name)
+    lc_elt = ('comp', '[', ('walrus', 'last', 'r.amount'), [('r', 'orders', [])])
+    lc_acc = ('comp', '[', ('walrus', 't', ('bin', '+', 't', 'r.amount')), [('r', 'orders', [])])
+    lc_if = ('comp', '[', 'r.item', [('r', 'orders', [('cmp', ('walrus', 'seen', 'r.amount'), [('>', '0')])])])
+    lc_if2 = ('comp', '[', 'r', [('r', 'orders', [('cmp', 'r.amount', [('>', '0')]), ('walrus', 'hit', 'r.item')])])
+    ge_elt = ('comp', '(', ('walrus', 'c', 'r.amount'), [('r', 'orders', [])])
+    nested = ('comp', '[', ('call', 'len', [('comp', '[', ('walrus', 'inner', 'p.amount'), [('p', 'orders', [])])]), [('r', 'orders', [])])
+    two = ('comp', '[', ('walrus', 'w', ('bin', '*', 'r.amount', 'q.amount')), [('r', 'orders', []), ('q', 'orders', [('cmp', 'q.amount', [('>', 'r.amount')])])])
+    return [
+        after(lc_elt, 'last'),
+        ('bool', 'and', [('cmp', ('call', 'len', [lc_elt]), [('>', '0')]), ('cmp', 'last', [('==', '12.5')])]),
+        ('bin', '+', ('bin', '*', ('walrus', 't', '0'), '0'), after(lc_acc, 't')),
+        ('bool', 'and', [('cmp', ('walrus', 't', '0'), [('==', '0')]), ('cmp', ('call', 'len', [lc_acc]), [('>=', '0')]),
+                         ('cmp', 't', [('==', 'txn.amount')])]),
+        ('bin', '+', ('bin', '*', ('walrus', 'last', '-1'), '0'), after(lc_elt, 'last')),
+        after(lc_if, 'seen'), after(lc_if2, 'hit'),
+        ('bin', '+', ('bin', '*', ('walrus', 'seen', '100'), '0'), after(lc_if, 'seen')),
+        ('bin', '+', ('bin', '*', ('call', 'sum', [ge_elt]), '0'), 'c'),
+        ('bin', '+', ('bin', '*', ('walrus', 'c', '7'), '0'), ('bin', '+', ('bin', '*', ('call', 'sum', [ge_elt]), '0'), 'c')),
+        after(nested, 'inner'), after(two, 'w'),
+        ('sub', lc_elt, '0'), ('call', 'len', [lc_if2]),
+        ('bin', '+', ('call', 'sum', [lc_elt]), 'last'),
+    ]
 
 # ---- random typed trees ----------------------------------------------------------------------
 STRS = ['"uber"', '"UBER"', '"Eats"', '""', '" "', '"-"', '"ref"', '"2025-01-31"', '"2024-02-29"', '"20250131"',
